@@ -2384,9 +2384,12 @@ func opMerge(h *Hist) {
 		return
 	}
 	h.derive(r, "Merge", n, m)
-	for x := range reach(r) {
-		if x != r && x.Group == h.group {
-			h.derive(x, "Merge", n, m)
+	if below := reach(r); len(below) <= 512 {
+		// (every derive call walks the whole heap: on the many-containers size class this loop alone took 85 s for one Merge)
+		for x := range below {
+			if x != r && x.Group == h.group {
+				h.derive(x, "Merge", n, m)
+			}
 		}
 	}
 	h.trace[len(h.trace)-1] += " -> " + r.Name
